@@ -136,13 +136,17 @@ class State:
         r = self.nodes[nid]
         return VStruct(NODEID, (("index1", VNonZero(Lin(1, ("idx", nid), 1))), ("stamp", r.h0["stamp"] if not r.fresh else r.cur["stamp"])))
 
-    @staticmethod
-    def node_of_id(v):
+    def node_of_id(self, v):
         """Individual addressed by a NodeId value (by its index term)."""
         if isinstance(v, VStruct) and v.adt == NODEID:
             t = v.get("index1")
-            if isinstance(t, VNonZero) and t.t.sym and t.t.sym[0] == "idx" and t.t.k == 1 and t.t.c == 1:
-                return t.t.sym[1]
+            if isinstance(t, VNonZero) and t.t.sym and t.t.k == 1:
+                if t.t.sym[0] == "idx" and t.t.c == 1:
+                    return t.t.sym[1]
+                if t.t.sym[0] == "len0":
+                    return self.meta.get("pushed", {}).get(t.t.c - 1)
+            if isinstance(t, VNonZero) and t.t.is_const():
+                return self.meta.get("pushed", {}).get(t.t.c - 1) if self.len0.is_const() else None
         return None
 
     # ---------------------------------------------------------------- H0 access
